@@ -27,7 +27,12 @@ fn violation_extra(g: &Grammar, k: usize, rng: &mut Rng) -> String {
     let some_nt = g.nts[rng.below(g.nts.len())].name.clone();
     let some_t = if g.terms.is_empty() { "Nope".to_string() } else { g.terms[rng.below(g.terms.len())].name.clone() };
     let other_t = if g.terms.is_empty() { "Nope".to_string() } else { g.terms[rng.below(g.terms.len())].name.clone() };
-    match rng.below(24) {
+    match rng.below(27) {
+        24 => format!("start {some_t}"),
+        25 => format!(
+            "enum ClashA{k} {{\n    X\n    Y\n    X\n}}\n\nenum ClashB{k} {{\n    P(${some_t})\n    Q(${some_t})\n    R\n    R\n}}"
+        ),
+        26 => format!("struct Reps{k} {{\n    a: Gone{k}\n    b: Gone{k}\n    c: $Lost{k}\n    d: $Lost{k}\n    e: Gone{k}\n}}"),
         21 => format!("struct lowa{k}\n\nenum lowb{k} {{\n    A\n}}\n\nstruct lowc{k}"),
         22 => format!("enum lowd{k} {{\n    A\n}}\n\nstruct lowe{k} {{\n    a: {some_nt}\n}}"),
         23 => format!("struct lowf{k}\n\nstruct Fine{k}\n\nstruct lowg{k}\n\nstruct {some_nt}"),
